@@ -434,7 +434,12 @@ def _serialize_str_array(strings: list[str]) -> ir.CellArray:
     return ir.CellArray(
         shape=(len(strings),),
         data=[
-            ir.ObjectArray(shape=(len(s),), data=[ir.String(s)], ty=ir.TypeTag.char)
+            ir.ObjectArray(
+                # The shape counts bytes of the UTF-8 encoded string, not characters.
+                shape=(len(s.encode("utf-8")),),
+                data=[ir.String(s)],
+                ty=ir.TypeTag.char,
+            )
             for s in strings
         ],
     )
